@@ -21,7 +21,7 @@ GAccept == \E n \in 1..(FrameQ - Len(sent)) :
     /\ LET short == n < FrameQ - Len(sent) IN
        /\ short => (cuts < MaxCuts /\ CutOK(Len(sent) + n, FrameQ))
        /\ cuts' = IF short THEN cuts + 1 ELSE cuts
-    /\ Accept(n) /\ hist' = Append(hist, [op |-> "accept", n |-> n])
+    /\ Take(n) /\ hist' = Append(hist, [op |-> "accept", n |-> n])
 
 GChunk == \E n \in 1..Min(need - got, StreamLen - pos) :
     /\ phase \in {"len", "body"}
@@ -42,7 +42,7 @@ Emit == (~Active) => PrintT("BEH " \o ToJson([cfg |-> cfg, ev |-> hist]))
    if it differs); qlen = 29 is the query's wire length, 261 a raw payload. *)
 R(wf) == [GoodReply EXCEPT !.wf = wf]
 Case(a, q, m, len, pad, v, x, it, d) ==
-    [api |-> a, qlen |-> q, msg |-> m, L |-> len, pad |-> pad, v |-> v, extra |-> x, it |-> it, deadline |-> d]
+    [api |-> a, qlen |-> q, msg |-> m, L |-> len, pad |-> pad, v |-> v, extra |-> x, it |-> it, deadline |-> d, tz |-> "-"]
 
 \* receive side, the good 45-octet reply: every chunking within the cut budget
 GRecvGood == {Case("recv", 29, GoodReply, 45, 0, 0, x, FALSE, 9) : x \in {0, 4}}
@@ -63,5 +63,7 @@ GSend == {Case("send", q, GoodReply, 45, 0, v, 0, FALSE, 9) : q \in {29}, v \in 
          \cup {Case("send", 261, GoodReply, 45, 0, 1, 0, FALSE, 9)}
 \* whole exchange, and the clock: no deadline / short deadlines
 GTcp == {Case("tcp", 29, GoodReply, 45, 0, 0, 0, FALSE, d) : d \in {0, 3, 5}}
-GClock == {Case(a, 29, GoodReply, 45, 0, 0, 0, FALSE, d) : a \in {"send", "recv"}, d \in {0, 1, 3}}
+GClock0 == {Case(a, 29, GoodReply, 45, 0, 0, 0, FALSE, d) : a \in {"send", "recv", "tcp"}, d \in {0, 1, 3}}
+\* ... and the zero timeouts (0, 0.0, tiny) for send_tcp, receive_tcp and tcp
+GClock == GClock0 \cup ZeroTimeouts(GClock0)
 =============================================================================
